@@ -3,8 +3,9 @@
 //! The whole per-case logic (generate from choices, run penne, oracle) runs in
 //! `pv worker` subprocesses. The driver hands out index blocks, tracks the
 //! in-flight case, classifies worker deaths (panic / LLVM abort / stack
-//! overflow / signal / watchdog) and shrinks failures through proptest's value
-//! tree of the choice vector.
+//! overflow / signal / watchdog) and shrinks failures: first the choice vector
+//! (shortest failing prefix, chunk deletion, zeroing), then, where the check's
+//! oracle needs only the source, the source itself (files, lines, tokens).
 
 use crate::choices::{case_tree, Choices};
 use serde_json::{json, Map, Value};
@@ -146,6 +147,14 @@ pub trait Check: Sync + Send
 	fn crash_sig_per_stream(&self) -> bool
 	{
 		true
+	}
+	/// The oracle of this check applied to literal source files, for checks
+	/// whose oracle needs nothing but the source. Used to reduce a failing
+	/// case at the level of lines and tokens once the choice vector has been
+	/// shrunk, and to replay the reduced source without any generator.
+	fn judge_source(&self, _stream: &str, _files: &[(String, String)], _ctx: &RunCtx) -> Option<CaseOut>
+	{
+		None
 	}
 }
 
@@ -364,6 +373,29 @@ pub fn worker_main(checks: &[Box<dyn Check>])
 				.find(|c| c.id() == id)
 				.unwrap_or_else(|| panic!("unknown check {}", id));
 			streams_cache.insert(id.clone(), check.streams());
+		}
+		if let Some(src) = req.get("source").and_then(|c| c.as_array())
+		{
+			let files = files_of_json(src);
+			let check = checks.iter().find(|c| c.id() == id).unwrap();
+			{
+				let mut o = stdout.lock();
+				writeln!(o, "S 0").unwrap();
+				o.flush().unwrap();
+			}
+			let ctx = RunCtx {
+				tier,
+				seed,
+				want_sample: false,
+				replay: true,
+			};
+			let out = check.judge_source(&sname, &files, &ctx).unwrap_or_default();
+			let mut agg = Agg::default();
+			caseout_to_agg(&mut agg, 0, out, true);
+			let mut o = stdout.lock();
+			writeln!(o, "R {}", agg.to_json(1)).unwrap();
+			o.flush().unwrap();
+			continue;
 		}
 		let streams = &streams_cache[&id];
 		let stream = streams
@@ -865,6 +897,23 @@ fn run_block(
 	}
 }
 
+pub fn files_of_json(a: &[Value]) -> Vec<(String, String)>
+{
+	a.iter()
+		.map(|f| {
+			(
+				f["file"].as_str().unwrap_or("main.pn").to_string(),
+				f["source"].as_str().unwrap_or("").to_string(),
+			)
+		})
+		.collect()
+}
+
+pub fn files_to_json(files: &[(String, String)]) -> Value
+{
+	json!(files.iter().map(|(n, s)| json!({"file": n, "source": s})).collect::<Vec<_>>())
+}
+
 fn run_single(
 	id: &str,
 	sname: &str,
@@ -875,6 +924,27 @@ fn run_single(
 	replay: bool,
 ) -> Vec<(String, Value)>
 {
+	let req = json!({"id": id, "stream": sname, "tier": cfg.tier.name(), "seed": cfg.seed,
+		"idx": idx, "choices": choices, "replay": replay});
+	run_request(sname, req, timeout)
+}
+
+/// the check's source-level oracle on literal files, in a fresh worker
+fn run_source(
+	id: &str,
+	sname: &str,
+	files: &[(String, String)],
+	cfg: &RunConfig,
+	timeout: Duration,
+) -> Vec<(String, Value)>
+{
+	let req = json!({"id": id, "stream": sname, "tier": cfg.tier.name(), "seed": cfg.seed,
+		"source": files_to_json(files)});
+	run_request(sname, req, timeout)
+}
+
+fn run_request(sname: &str, req: Value, timeout: Duration) -> Vec<(String, Value)>
+{
 	let per_stream_sigs = PER_STREAM_SIGS.load(Ordering::SeqCst) != 0;
 	let input_path = scratch_dir().join(format!(
 		"last-input-{}-{}.txt",
@@ -882,8 +952,6 @@ fn run_single(
 		WORKER_SEQ.fetch_add(1, Ordering::SeqCst)
 	));
 	let mut w = Worker::spawn_with(Some(&input_path));
-	let req = json!({"id": id, "stream": sname, "tier": cfg.tier.name(), "seed": cfg.seed,
-		"idx": idx, "choices": choices, "replay": replay});
 	let mut res = Vec::new();
 	if writeln!(w.stdin, "{}", req).is_err() || w.stdin.flush().is_err()
 	{
@@ -923,7 +991,10 @@ fn run_single(
 			{
 				let (sig, tail) = w.death_signature();
 				let sig = if per_stream_sigs { format!("{} [stream {}]", sig, sname) } else { sig };
-				let last = std::fs::read_to_string(&input_path).unwrap_or_default();
+				let last: Value = std::fs::read_to_string(&input_path)
+					.ok()
+					.and_then(|t| serde_json::from_str(&t).ok())
+					.unwrap_or(Value::Null);
 				res.push((sig, json!({"stderr_tail": tail, "crashed": true, "last_input": last})));
 				break;
 			}
@@ -990,8 +1061,7 @@ fn shrink(
 	timeout: Duration,
 ) -> (Vec<u32>, Value, u32)
 {
-	let mut tree = case_tree(cfg.seed, id, sname, idx, clen);
-	let mut best = tree.current();
+	let mut best = case_tree(cfg.seed, id, sname, idx, clen).current();
 	let mut best_detail = Value::Null;
 	let mut steps = 0u32;
 	let budget = 250u32;
@@ -1079,32 +1149,137 @@ fn shrink(
 		}
 		i += 1;
 	}
-	return (best, best_detail, steps);
-	#[allow(unreachable_code)]
-	while steps < budget && Instant::now() < deadline
+	(best, best_detail, steps)
+}
+
+/// the source files of a failing case, from the failure's detail
+fn source_of_detail(detail: &Value) -> Option<Vec<(String, String)>>
+{
+	for key in ["last_input", "files"]
 	{
-		if !tree.simplify()
+		if let Some(a) = detail.get(key).and_then(|v| v.as_array())
 		{
-			break;
-		}
-		loop
-		{
-			steps += 1;
-			let cur = tree.current();
-			let r = run_single(id, sname, idx, &cur, cfg, timeout, false);
-			if let Some((_, d)) = r.iter().find(|(s, _)| s == sig)
+			if !a.is_empty() && a.iter().all(|f| f.get("source").map(|s| s.is_string()).unwrap_or(false))
 			{
-				best = cur;
-				best_detail = d.clone();
-				break;
-			}
-			if steps >= budget || Instant::now() >= deadline || !tree.complicate()
-			{
-				break;
+				return Some(files_of_json(a));
 			}
 		}
 	}
-	(best, best_detail, steps)
+	None
+}
+
+/// Reduce the source of a failing case while the same signature is produced:
+/// whole files, then chunks of lines, then chunks of tokens (delta debugging).
+fn reduce_source(
+	id: &str,
+	sname: &str,
+	files: Vec<(String, String)>,
+	sig: &str,
+	cfg: &RunConfig,
+	timeout: Duration,
+) -> Option<(Vec<(String, String)>, u32)>
+{
+	let deadline = Instant::now() + Duration::from_secs(240);
+	let mut steps = 0u32;
+	let max_steps = 1500u32;
+	let mut fails = |f: &[(String, String)], steps: &mut u32| -> bool {
+		*steps += 1;
+		run_source(id, sname, f, cfg, timeout).iter().any(|(s, _)| s == sig)
+	};
+	if !fails(&files, &mut steps)
+	{
+		return None;
+	}
+	let mut best = files;
+	// whole files (module sets)
+	let mut i = 0;
+	while best.len() > 1 && i < best.len()
+	{
+		let mut cand = best.clone();
+		cand.remove(i);
+		if fails(&cand, &mut steps)
+		{
+			best = cand;
+		}
+		else
+		{
+			i += 1;
+		}
+	}
+	// pieces of one file: `split` cuts the text, chunks of pieces are deleted
+	let mut pass = |best: &mut Vec<(String, String)>,
+	                steps: &mut u32,
+	                split: &dyn Fn(&str) -> Vec<String>| {
+		for fi in 0..best.len()
+		{
+			let mut pieces = split(&best[fi].1);
+			let mut chunk = (pieces.len() / 2).max(1);
+			loop
+			{
+				let mut i = 0;
+				let mut progressed = false;
+				while i < pieces.len() && *steps < max_steps && Instant::now() < deadline
+				{
+					let end = (i + chunk).min(pieces.len());
+					let mut cand_pieces = pieces.clone();
+					cand_pieces.drain(i..end);
+					let mut cand = best.clone();
+					cand[fi].1 = cand_pieces.concat();
+					if fails(&cand, steps)
+					{
+						pieces = cand_pieces;
+						*best = cand;
+						progressed = true;
+					}
+					else
+					{
+						i = end;
+					}
+				}
+				if *steps >= max_steps || Instant::now() >= deadline
+				{
+					break;
+				}
+				if chunk == 1
+				{
+					if !progressed
+					{
+						break;
+					}
+				}
+				else
+				{
+					chunk /= 2;
+				}
+			}
+		}
+	};
+	let by_lines = |t: &str| -> Vec<String> { t.split_inclusive('\n').map(|l| l.to_string()).collect() };
+	let by_tokens = |t: &str| -> Vec<String> {
+		let toks = crate::reflex::lex(t.as_bytes()).toks;
+		let mut cuts: Vec<usize> = toks
+			.iter()
+			.map(|k| k.start)
+			.filter(|&a| a > 0 && a < t.len() && t.is_char_boundary(a))
+			.collect();
+		cuts.dedup();
+		let mut out = Vec::new();
+		let mut from = 0;
+		for c in cuts
+		{
+			if c > from
+			{
+				out.push(t[from..c].to_string());
+				from = c;
+			}
+		}
+		out.push(t[from..].to_string());
+		out
+	};
+	pass(&mut best, &mut steps, &by_lines);
+	pass(&mut best, &mut steps, &by_tokens);
+	pass(&mut best, &mut steps, &by_lines);
+	Some((best, steps))
 }
 
 pub fn run_check(check: &dyn Check, cfg: &RunConfig) -> i32
@@ -1345,6 +1520,16 @@ pub fn run_check(check: &dyn Check, cfg: &RunConfig) -> i32
 		{
 			(Vec::new(), detail.clone(), 0)
 		};
+		// source-level reduction, for checks whose oracle needs only the source
+		let ctx0 = RunCtx { tier: cfg.tier, seed: cfg.seed, want_sample: false, replay: true };
+		let reduced = match source_of_detail(&detail2)
+		{
+			Some(files) if check.judge_source(sname, &[], &ctx0).is_some() =>
+			{
+				reduce_source(id, sname, files, sig, cfg, stream.timeout())
+			}
+			_ => None,
+		};
 		let dir = verif_root().join("replays").join(id);
 		let _ = std::fs::create_dir_all(&dir);
 		let h = crate::choices::fnv(&format!("{}|{}", sig, sname));
@@ -1360,6 +1545,8 @@ pub fn run_check(check: &dyn Check, cfg: &RunConfig) -> i32
 			"occurrences_in_run": count,
 			"shrink_steps": steps,
 			"detail": detail2,
+			"reduced_source": reduced.as_ref().map(|(f, _)| files_to_json(f)),
+			"reduce_steps": reduced.as_ref().map(|(_, n)| *n),
 		});
 		let _ = std::fs::write(&path, serde_json::to_string_pretty(&replay).unwrap());
 		lines.push(format!("VIOLATION property={} replay={}", id, path.display()));
@@ -1498,7 +1685,19 @@ pub fn replay(check: &dyn Check, path: &str) -> i32
 	{
 		choices
 	};
-	let res = run_single(id, &sname, idx, &choices, &cfg, stream.timeout(), true);
+	let mut res = run_single(id, &sname, idx, &choices, &cfg, stream.timeout(), true);
+	if let Some(a) = v["reduced_source"].as_array()
+	{
+		// the reduced source, with no generator involved
+		let files = files_of_json(a);
+		for (sig, detail) in run_source(id, &sname, &files, &cfg, stream.timeout())
+		{
+			if !res.iter().any(|(s, _)| *s == sig)
+			{
+				res.push((sig, detail));
+			}
+		}
+	}
 	let known = KnownFindings::load();
 	let mut bad = 0;
 	for (sig, detail) in &res
